@@ -508,7 +508,11 @@ func (p *Proof) iteValue(st *State, c *Term, a, b Value) Value {
 				return PtrV{Kind: KObj, Elem: x.Elem, Ref: r, Null: Eq(r, BVInt(0, 64))}
 			case KElem:
 				if types.Identical(x.ArrElem, y.ArrElem) {
-					return PtrV{Kind: KElem, Elem: x.Elem, ArrElem: x.ArrElem, Arr: Ite(c, x.Arr, y.Arr), Idx: Ite(c, x.Idx, y.Idx), Null: Ite(c, x.Null, y.Null)}
+					var end *Term
+					if x.End != nil && y.End != nil {
+						end = Ite(c, x.End, y.End)
+					}
+					return PtrV{Kind: KElem, Elem: x.Elem, ArrElem: x.ArrElem, Arr: Ite(c, x.Arr, y.Arr), Idx: Ite(c, x.Idx, y.Idx), Null: Ite(c, x.Null, y.Null), End: end}
 				}
 			case KLocal:
 				if x.Cell == y.Cell && pathEq(x.Path, y.Path) {
@@ -1727,6 +1731,16 @@ func pathString(rt types.Type, path []int) (string, types.Type) {
 	return s, t
 }
 
+// extentCheck: an access of n bytes through a pointer obtained by reinterpreting &s[i] of a byte slice
+// stays inside that slice (the index expression itself only guarantees the first byte).
+func (fr *Frame) extentCheck(in ssa.Instruction, st *State, ptr PtrV, nbytes int, base string) {
+	if in == nil || ptr.Kind != KElem || ptr.End == nil || !isByte(ptr.ArrElem) || nbytes <= 1 {
+		return
+	}
+	fr.p.oblige(fr.siteName(in, base)+".extent", "bounds", in.Pos(), st.Guard, BVUle(BVAdd(ptr.Idx, BVInt(int64(nbytes), 64)), ptr.End),
+		fmt.Sprintf("%d-byte access through a reinterpreted element pointer stays inside the slice", nbytes))
+}
+
 func (fr *Frame) nilCheck(in ssa.Instruction, st *State, ptr PtrV) {
 	if ptr.Null == tFalse {
 		return
@@ -1765,6 +1779,11 @@ func (fr *Frame) load(in ssa.Instruction, st *State, addr Value, t types.Type) V
 		}
 		return p.loadObj(st, ptr.Elem, ptr.Ref, "", ptr.Elem)
 	case KElem:
+		if isByte(ptr.ArrElem) && !types.Identical(ptr.Elem, ptr.ArrElem) {
+			if w, ok := castWidth(t); ok {
+				fr.extentCheck(in, st, ptr, w/8, "nil")
+			}
+		}
 		return p.loadElemCast(st, ptr, t)
 	}
 	panic("unsupported pointer kind")
@@ -1807,6 +1826,11 @@ func (fr *Frame) store(in ssa.Instruction, st *State, addr Value, v Value, vt ty
 	case KObj:
 		p.storeObj(st, ptr.Elem, ptr.Ref, "", ptr.Elem, v)
 	case KElem:
+		if isByte(ptr.ArrElem) && !types.Identical(ptr.Elem, ptr.ArrElem) {
+			if w, ok := castWidth(ptr.Elem); ok {
+				fr.extentCheck(in, st, ptr, w/8, "nil")
+			}
+		}
 		p.storeElemCast(st, ptr, v)
 	}
 }
@@ -1913,7 +1937,7 @@ func (fr *Frame) indexAddr(x *ssa.IndexAddr, st *State) Value {
 	switch b := fr.val(x.X).(type) {
 	case SliceV:
 		fr.boundsCheck(x, st, idx, b.Len, "slice index in range")
-		return PtrV{Kind: KElem, Elem: b.Elem, ArrElem: b.Elem, Arr: b.Ref, Idx: BVAdd(b.Off, idx), Null: False()}
+		return PtrV{Kind: KElem, Elem: b.Elem, ArrElem: b.Elem, Arr: b.Ref, Idx: BVAdd(b.Off, idx), Null: False(), End: BVAdd(b.Off, b.Len)}
 	case PtrV:
 		// pointer to array
 		at := x.X.Type().Underlying().(*types.Pointer).Elem().Underlying().(*types.Array)
